@@ -327,6 +327,22 @@ theorem basic_cluster_sections_locked :
     PdModel.Generated.RegionTree.getOverlapsIsOneSection = true ∧
     PdModel.Generated.RegionTree.getAdjacentRegionsIsOneSection = true := by decide
 
+/-- structure obligation: every per-store / global counter of BasicCluster is computed inside ONE read-lock
+    section (`bc.RLock(); defer bc.RUnlock()` are its first two statements), so a sum of sub-tree counters
+    (`GetStoreRegionCount` = leaders + followers + learners, `GetStoreRegionSize`) is taken from one state of the
+    region set – which is what `storeRegionCount_eq` / `storeCount_eq` / `storeSize_eq` speak about. -/
+theorem basic_cluster_counters_locked :
+    PdModel.Generated.RegionTree.storeRegionCountIsOneSection = true ∧
+    PdModel.Generated.RegionTree.storeRegionSizeIsOneSection = true ∧
+    PdModel.Generated.RegionTree.storeLeaderCountIsOneSection = true ∧
+    PdModel.Generated.RegionTree.storeFollowerCountIsOneSection = true ∧
+    PdModel.Generated.RegionTree.storePendingPeerCountIsOneSection = true ∧
+    PdModel.Generated.RegionTree.storeLeaderRegionSizeIsOneSection = true ∧
+    PdModel.Generated.RegionTree.regionCountIsOneSection = true ∧
+    PdModel.Generated.RegionTree.averageRegionSizeIsOneSection = true ∧
+    PdModel.Generated.RegionTree.storeRegionsIsOneSection = true ∧
+    PdModel.Generated.RegionTree.getRegionIsOneSection = true := by decide
+
 /-- glue: a region built from a heartbeat has the (extracted) minimum size, so every size is positive -/
 theorem regionFromHeartbeat_size_pos (hb : Heartbeat) : 1 ≤ (regionFromHeartbeat hb).size := by
   unfold regionFromHeartbeat
